@@ -302,7 +302,9 @@ class _P:
                 if not kinds:
                     o = implicit
                 else:
-                    os_ = {(implicit if s in '/\\' else BOND_ORDER[s]) for s in kinds}
+                    # '/' and '\\' count as single when the other end spells '-' (module docstring; RDKit reads c-1ccccc/1 the same way)
+                    dir_as = 1 if '-' in kinds else implicit
+                    os_ = {(dir_as if s in '/\\' else BOND_ORDER[s]) for s in kinds}
                     if len(os_) != 1:
                         raise Reject('ring-closure-bond-mismatch')
                     o = os_.pop()
